@@ -34,6 +34,40 @@ def scan_trusted_base():
     return out
 
 
+def contract_texts():
+    """obligation id -> contract clause text: the requires/ensures spliced for Verus functions, the asserted
+    expression for labelled Kani clauses"""
+    out = {}
+    try:
+        import extract
+        LINK, CYCLE, _ = extract.load_annotations(VERIF)
+        for k, v in list(LINK.items()) + list(CYCLE.items()):
+            if isinstance(v, dict) and v.get("spec"):
+                out["V." + k] = " ".join(v["spec"].split())
+    except Exception:
+        pass
+    try:
+        d = os.path.join(VERIF, "verus")
+        for fn in ("lemmas.rs", "lemmas_trace.rs"):
+            text = open(os.path.join(d, fn)).read()
+            for m in re.finditer(r"pub proof fn (\w+)\(([^)]*)\)\s*((?:requires|ensures)[\s\S]*?)\n\{", text):
+                spec = " ".join(m.group(3).split())
+                out["L." + m.group(1)] = spec
+                out["V." + m.group(1)] = spec
+    except Exception:
+        pass
+    try:
+        d = os.path.join(VERIF, "kani", "verif")
+        for fn in os.listdir(d):
+            if fn.endswith(".rs"):
+                text = open(os.path.join(d, fn)).read()
+                for m in re.finditer(r'kani::assert\(\s*([\s\S]*?),\s*"((?:U\d+|X)\.[A-Za-z0-9_.\-]+)"', text):
+                    out.setdefault(m.group(2), " ".join(m.group(1).split()))
+    except Exception:
+        pass
+    return out
+
+
 def fn_spans(reg, units):
     """functions under contract with a hash of their file in the working tree"""
     out = []
@@ -53,7 +87,7 @@ def finish(prop, pdef, tier, seed, reg, kentries, kres, ventries, vres, wall, sc
             continue
         for oid, st in r["obligations"].items():
             obligations.append({"id": oid, "backend": "kani/cbmc", "kind": e.get("kind", "complete"), "bounds": e.get("bounds"), "status": st, "unit": e["unit"],
-                                "via": e["harness"], "time_s": r.get("wall_s", 0), "cached": r.get("cached", False), "reason": r.get("reason", ""), "tail": r.get("tail", ""), "cmd": r.get("cmd", "")})
+                                "via": e["harness"], "time_s": r.get("wall_s", 0), "max_rss_gb": r.get("max_rss_gb"), "cached": r.get("cached", False), "reason": r.get("reason", ""), "tail": r.get("tail", ""), "cmd": r.get("cmd", "")})
     for e in ventries:
         r = vres.get(e["id"])
         if r is None:
@@ -137,8 +171,20 @@ def finish(prop, pdef, tier, seed, reg, kentries, kres, ventries, vres, wall, sc
         del b["_seen"]
         b["solver_wall_s"] = round(b["solver_wall_s"], 1)
     samples = []
+    contract_text = contract_texts()
     for o in obligations[:400]:
-        samples.append({"obligation": o["id"], "backend": o["backend"], "kind": o["kind"], "via": o["via"], "status": o["status"], **({"bounds": o["bounds"]} if o["bounds"] else {})})
+        smp = {"obligation": o["id"], "backend": o["backend"], "kind": o["kind"], "via": o["via"], "status": o["status"], **({"bounds": o["bounds"]} if o["bounds"] else {})}
+        if o["id"] in contract_text:
+            smp["contract"] = contract_text[o["id"]][:600]
+        if o.get("max_rss_gb"):
+            smp["max_rss_gb"] = o["max_rss_gb"]
+        samples.append(smp)
+    rule_counts = {}
+    for e in ventries:
+        r = vres.get(e["id"])
+        if r and r.get("rule_counts"):
+            rule_counts = r["rule_counts"]
+            break
     cmds = sorted(set(o["cmd"] for o in obligations if o["cmd"]))
     ev = {
         "property_id": prop, "tier": tier, "seed": seed, "level": "proof",
@@ -154,6 +200,8 @@ def finish(prop, pdef, tier, seed, reg, kentries, kres, ventries, vres, wall, sc
             "served_from_cache": sum(1 for o in obligations if o["cached"]),
             "cache_note": "results are cached by sha256(repo working tree sources + all verification sources + obligation record); a cached obligation was discharged by the identical inputs earlier",
             "samples": samples,
+            "extraction_rule_applications": rule_counts,
+            "vacuity": "every run must refute a deliberately false claim in each back end (Kani harness k_canary_must_fail with a satisfied reachability cover; Verus lemma canary_must_fail); otherwise the run is reported undecided",
             "known_findings_reported": known_lines,
             "failed": [o["id"] for o in failed], "undecided": [o["id"] + ": " + o["reason"][:120] for o in undecided],
             "repo_hash": common.repo_hash(),
